@@ -36,6 +36,10 @@ def handleStateInv (ws : List String) : Option String :=
     match c0.toNat?, c.toNat? with
     | some a, some b => some (showV (H2V.Spec.StateInv.capWait a b (wk == "1")))
     | _, _ => none
+  | ["mon_stalled", ca, win, av, buf, po] =>
+    match ca.toInt?, win.toInt?, av.toInt?, buf.toInt? with
+    | some a, some b, some c, some d => some (showV (H2V.Spec.StateInv.stalled a b c d (po == "1")))
+    | _, _, _, _ => none
   | ["mon_held", sid, held, digest] =>
     match sid.toNat?, held.toNat? with
     | some s, some h => some (showV (H2V.Spec.StateInv.heldCheck digest s h))
